@@ -71,6 +71,34 @@ CHECKER = "repo:common.checkformat_delegating_metadata"
 VSIG = "repo:authentication.verify_signable"
 
 
+def checker_family(eng):
+    """the delegating-metadata checker and the functions that decide the *contents* part of its
+    schema for it: a function of the same module to which the checker hands envelope['signed'],
+    as its only argument, on every accepting path (so: it fails on x => the checker fails on every
+    envelope whose signed part is x).  Asking one of them about untrusted['signed'] is asking the
+    checker about the signed part with the signature map left out."""
+    fam = eng.__dict__.get("_checker_family")
+    if fam is not None:
+        return fam
+    from sa.terms import P, SubC
+
+    out = {CHECKER}
+    sm = eng.walk_whole("common.checkformat_delegating_metadata", parts=("signed",))
+    s = SubC(P(sm.params[0]), "signed")
+    cands = None
+    for p in sm.paths:
+        if p.kind != "return":
+            continue
+        here = {ev[2] for ev in flat(p) if ev[0] == "call" and isinstance(ev[2], str) and ev[2].startswith("repo:common.") and ev[5][0] == "ok" and tuple(ev[3]) == (s,) and not ev[4]}
+        cands = here if cands is None else cands & here
+    for c in cands or ():
+        if c[5:] in getattr(sm, "inlined_whole", ()):
+            out.add(c)
+    fam = tuple(sorted(out))
+    eng.__dict__["_checker_family"] = fam
+    return fam
+
+
 def own_site(eng, site, anchor_qualname):
     """is this site inside the anchor function itself or one of the private helpers of its module
     (which are analysed as one unit with it)"""
@@ -87,6 +115,8 @@ def own_site(eng, site, anchor_qualname):
     afi = eng.prog.funcs.get(anchor_qualname)
     if fi is not None:
         site = type(site)(site[0], site[1], site[2], fi.qualname, site[4])
+    if fi is not None and fi.qualname in eng.__dict__.get("_whole", {}).get(anchor_qualname, ()):
+        return True  # a function the anchor hands its whole argument to, analysed in place (Engine.walk_whole)
     return fi is not None and afi is not None and fi.mod.short == afi.mod.short and site.fn in eng.private_helpers(fi.mod.short)
 
 
